@@ -23,8 +23,12 @@ def feature_tables(n, small=False):
         tables.append(simple + rev + [("misc_feature", [(1, 2, 1)], {"label": ["nested"]})] + source)
     if n >= 4:
         tables.append([("misc_feature", [(1, 3, 1)], {"label": ["abut1"]}), ("misc_feature", [(3, 4, -1)], {"label": ["abut2"]})])
+    if n >= 5:
+        # joins whose parts are several letters long: a rotation can make one part run past the end while the other wraps
+        tables.append([("exon", [(0, 2, 1), (3, 5, 1)], {"label": ["join-long"]})])
+        tables.append([("exon", [(3, 5, -1), (0, 2, -1)], {"label": ["join-long-rev"]}), ("misc_feature", [(n - 2, n, 1), (0, 2, 1)], {"label": ["span-long"]})])
     if small:
-        keep = [0, 1, 2, 4, 5, 6, 8, 10]
+        keep = [0, 1, 2, 4, 5, 6, 8, 10, 12, 13]
         tables = [t for i, t in enumerate(tables) if i in keep]
     return tables
 
